@@ -109,6 +109,10 @@ def run(ctx):
         for st in [{"kind": "missing"}, {"kind": "prefix", "k": 0}, {"kind": "prefix", "k": 1000}, {"kind": "prefix", "k": N - 1},
                    {"kind": "garbage", "hex": b"garbage".hex()}, {"kind": "prefix", "k": N}]:
             extra.append({"kind": "subprocess", "start": st})
+            # the same states met by an import in another environment: BUILD_TZ_CACHE set (the documented way to regenerate
+            # the cache - a run that was interrupted leaves exactly these states behind), optimised byte code
+            for env_ in ({"BUILD_TZ_CACHE": "1"}, {"BUILD_TZ_CACHE": ""}, {"PYTHONOPTIMIZE": "2"}):
+                extra.append({"kind": "subprocess", "start": st, "env": env_})
         if not ctx.quick():
             extra += [{"kind": "subprocess", "start": {"kind": "prefix", "k": rng.randrange(N)}} for _ in range(100)]
     if not cases and not ctx.replay:     # loader unreachable: subprocess only
